@@ -130,4 +130,26 @@ pub fn run(rng: &mut Rng, out: &mut Fails) {
         let dd: f64 = a.iter().zip(&b).map(|(x, y)| x * y).sum();
         if n > 0 && compute::linalg::dot(&a, &b) != dd { fail(out, "dot", "C04.dot", format!("{:?} {:?}", a, b), format!("{}", compute::linalg::dot(&a, &b)), format!("{}", dd)); }
     }
+    // log-domain reductions: definition ln(sum exp x) resp. ln(mean exp x), no overflow for large magnitudes or large spread
+    let lse_cases: Vec<Vec<f64>> = vec![vec![0.0, 0.0], vec![-1000.0, -1.0, 0.0], vec![1000.0, 1000.0], vec![-1000.0, -1000.0, -1000.0], vec![800.0, -800.0],
+                                        vec![1.0, 2.0, 3.0], vec![-745.0, 0.0, 709.0], vec![5.0]];
+    for a in lse_cases {
+        let m = a.iter().cloned().fold(f64::NEG_INFINITY, f64::max);
+        let s: f64 = a.iter().map(|x| (x - m).exp()).sum();
+        let want = m + s.ln();
+        let got = compute::linalg::logsumexp(&a);
+        if !close(got, want, 1e-12) { fail(out, "logsumexp", "C04.logsumexp", format!("{:?}", a), format!("{}", got), format!("{}", want)); }
+        let got = Vector::new(a.clone()).logsumexp();
+        if !close(got, want, 1e-12) { fail(out, "Vector::logsumexp", "C04.logsumexp", format!("{:?}", a), format!("{}", got), format!("{}", want)); }
+        let wantm = m + (s / a.len() as f64).ln();
+        let got = compute::linalg::logmeanexp(&a);
+        if !close(got, wantm, 1e-12) { fail(out, "logmeanexp", "C04.logmeanexp", format!("{:?}", a), format!("{}", got), format!("{}", wantm)); }
+    }
+    // product
+    for n in 1..=12usize {
+        let a = rng.ivec(n, -3, 3);
+        let p: f64 = a.iter().product();
+        let got = Vector::new(a.clone()).prod();
+        if got != p { fail(out, "prod", "C04.prod", format!("{:?}", a), format!("{}", got), format!("{}", p)); }
+    }
 }
